@@ -252,3 +252,29 @@ C("c11-sasl-raw", "C11", U, "    if is_ral_char(data[0]):\n        if not is_ral
 C("c11-sasl-table", "C11", U, '        (stringprep.in_table_c3, "private use characters forbidden in "),\n', "", "C11.e")
 C("c11-hmac", "C11", DIG, "    if klen > block_size:\n        key = const(key).digest()", "    if klen >= block_size:\n        key = const(key).digest()", "C11.f")
 C("c11-pbkdf1", "C11", DIG, "    for _ in range(rounds):\n        block = const(block).digest()", "    for _ in range(rounds - 1):\n        block = const(block).digest()", "C11.f")
+
+# ---- C02
+S2 = "passlib/handlers/sha2_crypt.py"
+MD5C = "passlib/handlers/md5_crypt.py"
+C("c02-offsets", "C02", S2, "    (5, 0),\n    (5, 3),\n    (1, 3),\n    (5, 1),\n    (4, 3),", "    (5, 0),\n    (5, 3),\n    (1, 3),\n    (5, 1),\n    (4, 1),", "C02.a")
+C("c02-transpose", "C02", S2, "_256_transpose_map = (\n    20,\n    10,\n    0,", "_256_transpose_map = (\n    20,\n    0,\n    10,", "C02.a")
+C("c02-sha-ploop", "C02", S2, "        i = pwd_len - 1\n", "        i = pwd_len\n", "C02.c")
+C("c02-sha-libpass", "C02", SC, "        i = secret_len - 1\n", "        i = secret_len\n", "C02.c")
+C("c02-sha-96", "C02", S2, "    if pwd_len < 96:", "    if pwd_len < 64:", "C02.c")
+C("c02-sha-perms", "C02", S2, "perms = [dp, dp_dp, dp_ds, dp_ds + dp, ds + dp, ds + dp_dp]", "perms = [dp, dp_dp, dp_ds, dp_ds + dp, ds + dp_dp, ds + dp]", "C02.c")
+C("c02-md5-blocks", "C02", MD5C, "    blocks = 23", "    blocks = 24", "C02.d")
+C("c02-md5-magic", "C02", MD5C, '_APR_MAGIC = b"$apr1$"', '_APR_MAGIC = b"$apr$"', "C02.b")
+C("c02-md5-actx", "C02", MD5C, "a_ctx = md5(pwd + magic + salt)", "a_ctx = md5(pwd + salt + magic)", "C02.d")
+C("c02-sha1-seed", "C02", "passlib/handlers/sha1_crypt.py", 'result = (f"{self.salt}$sha1${rounds}").encode("ascii")', 'result = (f"{self.salt}$sha1${rounds - 1}").encode("ascii")', "C02.d")
+C("c02-des-25", "C02", DES, "result = des_encrypt_int_block(key_value, 0, salt_value, 25)", "result = des_encrypt_int_block(key_value, 0, salt_value, 24)", "C02.d")
+C("c02-bsdi-fold", "C02", DES, "    while idx < end:\n        next = idx + 8\n        tmp_value = _crypt_secret_to_key(secret[idx:next])", "    while idx + 8 <= end:\n        next = idx + 8\n        tmp_value = _crypt_secret_to_key(secret[idx:next])", "C02.d")
+C("c02-mysql-seed", "C02", "passlib/handlers/mysql.py", "nr2 = 0x12345671", "nr2 = 0x12345678", "C02.b")
+C("c02-phpass-order", "C02", "passlib/handlers/phpass.py", "result = md5(result + secret).digest()", "result = md5(secret + result).digest()", "C02.d")
+C("c02-postgres-order", "C02", "passlib/handlers/postgres.py", "return md5(secret + user).hexdigest()", "return md5(user + secret).hexdigest()", "C02.d")
+C("c02-msdcc2-rounds", "C02", "passlib/handlers/windows.py", 'return pbkdf2_hmac("sha1", tmp, user, 10240, 16)', 'return pbkdf2_hmac("sha1", tmp, user, 10000, 16)', "C02.b")
+C("c02-cisco-key", "C02", "passlib/handlers/cisco.py", "ncxv9873254k", "ncxv9872354k", "C02.b")
+C("c02-bcrypt-sha256-v2", "C02", BC, 'digest = compile_hmac("sha256", salt.encode("ascii"))(secret)', 'digest = compile_hmac("sha256", secret)(salt.encode("ascii"))', "C02.d")
+C("c02-crypt16-second", "C02", DES, "key2 = _crypt_secret_to_key(secret[8:16])", "key2 = _crypt_secret_to_key(secret[7:15])", "C02.d")
+C("c02-fshp-swap", "C02", "passlib/handlers/fshp.py", "            secret=self.salt,\n            salt=secret,", "            secret=secret,\n            salt=self.salt,", "C02.d")
+C("c01-bsdi-prefix", "C01", DES, "    while idx < end:\n        next = idx + 8\n        tmp_value = _crypt_secret_to_key(secret[idx:next])", "    while idx + 8 <= end:\n        next = idx + 8\n        tmp_value = _crypt_secret_to_key(secret[idx:next])", "C01.g")
+C("c01-htdigest-enc", "C01", "passlib/handlers/digests.py", "            secret = secret.encode(encoding)", '            secret = secret.encode("utf-8")', "C01.g")
